@@ -26,7 +26,8 @@ RULE = ("C05's operator-level generator with solver='sat': 1-5 variables, domain
         "constraints per model (mostly 1) over every kind: ==/!= relations of every shape, eq/ne const/var, "
         "all_different, sum_eq/le/ge with 1-5 terms, circuit with n <= 5 and arbitrary successor domains, no_overlap, "
         "cumulative with up to 12+ simultaneously active literals; non-trivial = >=1 constraint and >=2 variables "
-        "with non-singleton domains; distinct by model; collection arguments in presentation styles (list, tuple, "
+        "with non-singleton domains; distinct by model; 300 x budget numeric-edge models (small domains located at "
+        "+-2**53+-k, +-2**62, +-10**18, ... with constants of such magnitudes); collection arguments in presentation styles (list, tuple, "
         "generator, map, reversed, iter, dict values, reused scratch list) on 30% of the models; 500 x budget HISTORIES "
         "on one Model (2-3 rounds of declare/add/solve via SAT; half start with an encoding that creates auxiliaries): "
         "the clause list of every solve must decode to exactly the CP solutions of the model as it is then "
@@ -279,6 +280,11 @@ def run(ctx, budget):
         vars_, cons = K.gen_scaled(ctx.rng)
         scaled.append({"vars": vars_, "cons": cons, "hints": None, "limit": 1, "solver": "sat", "family": "scaled"})
     run_cases(ctx, scaled)
+    numeric = []
+    for _ in range(300 * budget):
+        vars_, cons, hints = K.gen_numeric_edge(ctx.rng)
+        numeric.append({"vars": vars_, "cons": cons, "hints": hints, "limit": 1, "solver": "sat", "family": "numeric_edge"})
+    run_cases(ctx, numeric)
     # fixed share, both tiers: histories on one Model (every solve through the SAT encoder)
     hs = []
     for _ in range(500 * budget):
